@@ -2,6 +2,21 @@
 from . import geom
 
 FLOOR = 120
+ANCHORS = [
+    'region.Region.__init__',
+    'region.Region.scale',
+    'region.Region.translate',
+    'region.Region.rotate90',
+    'region.Region.dims.setter',
+    'region.Region.units.setter',
+    'mesh.Mesh.__init__',
+    'mesh.Mesh.scale',
+    'mesh.Mesh.translate',
+    'mesh.Mesh.rotate90',
+    'field.Field.__init__',
+    'field.Field.rotate90',
+    'field.Field.array.setter',
+]   # functions whose code the property is anchored in (mutation analysis, evidence)
 
 
 def run(chk):
